@@ -131,6 +131,27 @@ func checkC08(c *km.Ctx) {
 							}
 						}
 					}
+					// ... or the name a password helper handed back after the backend accepted its password
+					if cl0, _ := callRes(u); cl0 != nil {
+						lfs := s.Leaves(k, nil, nil, u, func(cl *ssa.Call) bool { return km.CalleeFull(cl.Common()) == RS+"reprocessUsername" }, 2)
+						accepted := len(lfs) > 0
+						for _, lf := range lfs {
+							okLeaf := false
+							for _, f := range lf.K.List() {
+								if f.Op == token.ILLEGAL && f.Pol {
+									if cl, idx := callRes(f.X); cl != nil && idx == 0 && km.CalleeFull(cl.Common()) == KMD+".checkUserPassword" && km.Unwrap(cl.Common().Args[0]) == lf.Val {
+										okLeaf = true
+									}
+								}
+							}
+							if !okLeaf || lf.Val == u {
+								accepted = false
+							}
+						}
+						if accepted {
+							return true
+						}
+					}
 					// the same comparison made inside a helper the operand was passed to
 					own := km.Prim{Name: "operand == authUser", Rel: func(f km.Fact, resolve func(ssa.Value) ssa.Value) bool {
 						if f.Op != token.EQL {
